@@ -85,6 +85,14 @@ def observe(container, ident, fuel):
         back.append(cur)
         cur = cur.previous
     oid = lambda x: None if x is None else ident.get(id(x), 9999)
+    # overlapping iterations over the same container (capped like the plain one)
+    import itertools
+
+    zipped = [[oid(a), oid(b)] for a, b in itertools.islice(zip(container, container), fuel)]
+    nested = []
+    for a in itertools.islice(container, 3):
+        for b in itertools.islice(container, fuel):
+            nested.append([oid(a), oid(b)])
     return {
         "iter": [oid(x) for x in it],
         "len": ln,
@@ -92,6 +100,8 @@ def observe(container, ident, fuel):
         "last": oid(container.last),
         "links": [[oid(x), oid(x.previous), oid(x.next), bool(x.is_first), bool(x.is_last)] for x in it],
         "back": [oid(x) for x in back],
+        "zipped": zipped,
+        "nested": nested,
     }
 
 
@@ -329,7 +339,7 @@ def chunks(tier, seed):
     if tier == "quick":
         step, depth, nrand, rlen, parts = 4, 4, 1500, 30, 12
     elif tier == "thorough":
-        step, depth, nrand, rlen, parts = 6, 5, 30000, 60, 48
+        step, depth, nrand, rlen, parts = 6, 5, 120000, 60, 48
     else:  # search
         step, depth, nrand, rlen, parts = 5, 4, 6000, 40, 16
     for fam in FAMILIES:
